@@ -34,6 +34,8 @@ def _queues_by_role(f: Func) -> Tuple[Optional[str], Optional[str]]:
 
 
 def run(prog: Program, rep: Report):
+    from . import c01 as _c01
+    _c01._PROG[0] = prog
     fw = prog.cls("FunctorWorker", POOLS_MOD)
     fm = prog.cls("FunctorMap", POOLS_MOD)
     fr = prog.cls("FunRunner", WORKERS_MOD)
@@ -457,8 +459,18 @@ def r5_shutdown(prog, rep: Report, fm: Cls, mp: Func):
     call = prog.method(fm, "__call__")
     stores = [n for n in walk_own(call.node) if isinstance(n, (ast.Assign, ast.AugAssign))
               and any(dotted(t) and dotted(t)[0] == call.self_name for t in (n.targets if isinstance(n, ast.Assign) else [n.target]))]
-    buf_local = any(isinstance(n, ast.Assign) and isinstance(n.targets[0], ast.Name) and isinstance(n.value, ast.Call)
-                    and src(n.value.func) == "Buffer" for n in call.node.body)
+    def _makes_buffer(e) -> bool:
+        """Buffer(), or an object of a helper class of the package whose constructor creates its own Buffer()"""
+        if not isinstance(e, ast.Call):
+            return False
+        nm = src(e.func)
+        if nm == "Buffer":
+            return True
+        k = next((k for k in prog.classes.values() if not k.is_external and k.name == nm.split(".")[-1]), None)
+        init = k.methods.get("__init__") if k is not None else None
+        return init is not None and any(isinstance(n, ast.Assign) and isinstance(n.value, ast.Call) and src(n.value.func) == "Buffer"
+                                        and isinstance(n.targets[0], ast.Attribute) for n in walk_own(init.node))
+    buf_local = any(isinstance(n, ast.Assign) and isinstance(n.targets[0], ast.Name) and _makes_buffer(n.value) for n in call.node.body)
     rep.check("C05.R5", call, "call-local", not stores and buf_local, "buffer and counters are locals of the call",
               "FunctorMap.__call__ keeps per-call state on the object (or shares the reorder buffer between calls)",
               scenario="a second call on the same FunctorMap starts with the previous call's buffer cursor and rejects chunk 0")
